@@ -31,8 +31,8 @@ func ruleLatencyReport(r *Run) {
 				pings++
 			}
 		}
-		want := map[string]string{"recv.RequestID": "param:requestID", "recv.Iteration": "param:iteration", "recv.sender": "param:sender", "recv.SessionID": "param:sessionID",
-			"recv.ClientID": "param:clientID", "recv.WalletAddress": "param:walletAddress", "recv.privateKey": "param:privateKey"}
+		want := map[string]string{"recv.RequestID": "param:#2", "recv.Iteration": "param:#3", "recv.sender": "param:#1", "recv.SessionID": "param:#4",
+			"recv.ClientID": "param:#5", "recv.WalletAddress": "param:#6", "recv.privateKey": "param:#0"}
 		ok := true
 		for k, v := range want {
 			if got[k] != v {
@@ -69,7 +69,7 @@ func ruleLatencyReport(r *Run) {
 	paths := r.Paths(on)
 	r.Analysed(on, len(paths))
 	nFinal, nNext, nRefused := 0, 0, 0
-	entry := "recv.PingRequests[param:pingReqID]"
+	entry := "recv.PingRequests[param:#0]"
 	for pi := range paths {
 		path := &paths[pi]
 		g := r.guardMap(path)
@@ -101,7 +101,7 @@ func ruleLatencyReport(r *Run) {
 			}
 		}
 		for _, op := range r.mapOps(on, path) {
-			if op.Kind == "write" && op.Map == "recv.PingRequests" && op.Key == "param:pingReqID" {
+			if op.Kind == "write" && op.Map == "recv.PingRequests" && op.Key == "param:#0" {
 				stores++
 			}
 		}
@@ -188,7 +188,7 @@ func ruleLatencyReport(r *Run) {
 					for _, s := range sites {
 						switch {
 						case s.kind == "zero":
-						case s.kind == "assign" && s.rhs != nil && r.P.Canon(on, s.rhs) == "append(local:"+id.Name+",rangekey(recv.PingRequests))":
+						case s.kind == "assign" && s.rhs != nil && strings.HasPrefix(r.P.Canon(on, s.rhs), "append(local:") && strings.HasSuffix(r.P.Canon(on, s.rhs), ",rangekey(recv.PingRequests))"):
 							nApp++
 						default:
 							okAll = false
